@@ -15,7 +15,7 @@ from ..absint import AbsInt
 from ..astutil import attr_chain, call_method, short, src, ancestors
 from ..model import walk_local
 
-E, N = "E", "N"
+E = frozenset()
 
 
 def nonneg_invariant(loop: ast.While) -> bool:
@@ -58,7 +58,26 @@ class QueueInterp(AbsInt):
         self.unproved_loops = 0
 
     def join(self, a, b):
-        return N if N in (a, b) else E
+        return a | b
+
+    def label(self, call: ast.Call) -> str:
+        """What is being deferred at this add site (line-number free)."""
+        arg = call.args[-1] if call.args else None
+        if isinstance(arg, ast.Call) and isinstance(arg.func, ast.Name):
+            mt = next((k.value for k in arg.keywords if k.arg == "message_type"), None)
+            kind = attr_chain(mt)[-1] if mt is not None and attr_chain(mt) else "?"
+            return f"new {kind} message"
+        if isinstance(arg, ast.Name):
+            # the current message: name the type branch it sits in
+            for a in ancestors(call):
+                if isinstance(a, ast.If) and a.test is not None and "message_type" in src(a.test):
+                    # which arm of the chain contains the call?
+                    inside_body = any(call is x for y in a.body for x in ast.walk(y))
+                    ch = attr_chain(a.test.comparators[0]) if isinstance(a.test, ast.Compare) else None
+                    if inside_body and ch:
+                        return f"current message in the {ch[-1]} branch"
+            return "current message in the fall-through (other kinds) branch"
+        return "value"
 
     def copy(self, s):
         return s
@@ -67,8 +86,8 @@ class QueueInterp(AbsInt):
         q = self.q
         if isinstance(s, ast.Assign):
             if any(isinstance(t, ast.Name) and t.id == q for t in s.targets):
-                if st == N:
-                    self.drops.append((s, "re-initialised while it may still hold deferred events"))
+                for lab in sorted(st):
+                    self.drops.append((s, "re-initialised while it may still hold deferred events", lab))
                 return E
             for t in s.targets:
                 if isinstance(t, ast.Subscript) and isinstance(t.slice, ast.Slice) and isinstance(s.value, ast.Name) and s.value.id == q:
@@ -82,7 +101,7 @@ class QueueInterp(AbsInt):
             recv, name = call_method(s.value)
             if isinstance(recv, ast.Name) and recv.id == q and name in ("append", "insert", "extend"):
                 self._adds.add(id(s))
-                return N
+                return st | frozenset([self.label(s.value)])
             if name in ("extend",) and s.value.args and isinstance(s.value.args[0], ast.Name) and s.value.args[0].id == q:
                 self._consumes.add(id(s))
                 return E
@@ -116,16 +135,22 @@ class QueueInterp(AbsInt):
 
     def run(self, fn: ast.FunctionDef):
         end, rets, raises = self.run_function(fn, E)
-        if end == N:
-            self.drops.append((fn, "still holds deferred events when the function falls off its end"))
+        for lab in sorted(end or ()):
+            self.drops.append((fn, "still holds deferred events when the function falls off its end", lab))
         for node, st in rets:
-            if st == N:
-                self.drops.append((node, "still holds deferred events at `return`"))
-        return self.drops
+            for lab in sorted(st):
+                self.drops.append((node, "still holds deferred events at `return`", lab))
+        seen, out = set(), []
+        for node, why, lab in self.drops:
+            if (why, lab) not in seen:
+                seen.add((why, lab))
+                out.append((node, why, lab))
+        return out
 
 
 def find_queues(fn: ast.FunctionDef) -> list[str]:
-    """Local lists that receive deferred messages and are spliced back into a work list."""
+    """Local lists that receive deferred messages and are spliced back into a work list (or, failing that, local lists
+    re-initialised inside a loop that receive Message objects built from an open note: the deferred-event role)."""
     out = []
     for n in walk_local(fn):
         if isinstance(n, ast.Assign):
@@ -133,4 +158,13 @@ def find_queues(fn: ast.FunctionDef) -> list[str]:
                 if isinstance(t, ast.Subscript) and isinstance(t.slice, ast.Slice) and isinstance(n.value, ast.Name):
                     if n.value.id not in out:
                         out.append(n.value.id)
+    if not out:
+        # no splice site at all: identify the queue as the list (re-)initialised to [] inside a loop to which messages are appended
+        for n in walk_local(fn):
+            if isinstance(n, ast.Assign) and isinstance(n.value, ast.List) and not n.value.elts and isinstance(n.targets[0], ast.Name) \
+                    and any(isinstance(a, (ast.For, ast.While)) for a in ancestors(n)):
+                nm = n.targets[0].id
+                if any(isinstance(c, ast.Call) and isinstance(c.func, ast.Attribute) and c.func.attr == "append" and isinstance(c.func.value, ast.Name)
+                       and c.func.value.id == nm for c in ast.walk(fn)) and nm not in out:
+                    out.append(nm)
     return out
